@@ -28,7 +28,8 @@ def oracle_cow(run):
             version whose release had RETURNED before the lock_shared was called;
         (f) cancel: exactly one unlock of the writer mutex and one destruction of the private copy inside cancel(),
             nothing published; publication (the inner modify) happens inside the writer-mutex section of release.
-    C14 no mutex / yield / condition event and at most 4 atomic operations inside a lock_shared form.
+    C14 no mutex / yield / condition event and at most 14 atomic operations inside a lock_shared form (a constant bound - the
+        code needs 4 - that a loop waiting for a writer exceeds under some schedule).
     C20 lock() that throws: no payload constructed, writer mutex taken and released exactly once, nothing held after."""
     val = {}          # payload id -> value last written
     parent = {}
@@ -86,7 +87,7 @@ def oracle_cow(run):
                 if depth[v] < depth[need]:
                     return ("lock_shared returned v%d although the release of v%d had returned before it was called"
                             % (v, need))
-                if c.get("prim", 0) > 4:
+                if c.get("prim", 0) > 14:
                     return "%d atomic operations inside a lock_shared form" % c["prim"]
                 snaps.setdefault(tid, []).append(v)
                 frozen.add(v)
